@@ -78,7 +78,7 @@ def run(tier):
     rep = core.Report("C08", tier, "exploration")
     rep.rule = ("all sequences up to the level's length over alphabets/xmlhostile.txt (& < > quotes, entities, autolinks/URLs with & and quotes, every CriticMarkup marker, math and comment delimiters, CDATA end, ...) placed between two marker "
                 "words in %d syntactic positions (body contexts, link text/URL/title, image alt/title, reference title and attribute, metadata key/value, fence info, code, caption, notes, math) x {opml, fodt} (textual) and "
-                "{itmz mapdata.xml, odt members, epub OPF/nav/container/xhtml} (archives, unzipped with Python zipfile) x 5 extension sets; oracle: expat parses every XML member; distinct = distinct (document, format, options)" % len(POS))
+                "{itmz mapdata.xml, odt members, epub OPF/nav/container/xhtml} (archives, unzipped with Python zipfile) x 5 extension sets; plus a length ladder (one word of 60..4100 bytes in every position); oracle: expat parses every XML member; distinct = distinct (document, format, options)" % len(POS))
     rep.assumptions = ["sources are valid UTF-8 without control characters by construction", "no fragment is a raw HTML tag (raw HTML is passed through by design)", "undefined entities such as &nbsp; in XHTML members are tolerated (expat with a foreign DTD)"]
     mmd.so_path(); dl = core.deadline_s(tier); alpha = load_alpha("xmlhostile")
     plan = [(1, TEXTUAL, False), (2, TEXTUAL, False), (1, ARCHIVES, True)] if tier == "quick" else [(1, TEXTUAL, False), (2, TEXTUAL, False), (1, ARCHIVES, True), (2, ARCHIVES, True), (3, TEXTUAL[:1], False)]
@@ -86,6 +86,12 @@ def run(tier):
         case, n = make_case(alpha, L, fmts, arch)
         res = pmap.pmap(n, case, init_fn=mmd.init_worker, deadline_s=dl * 0.9)
         pmap.fold(rep, "len%d-%s" % (L, "+".join(f for f, _ in fmts)), n, res, "probe sequences of length %d x %d positions x %s x 5 extension sets" % (L, len(POS), "/".join(f for f, _ in fmts)))
+    # length ladder: one plain-word fragment of each length in every position (formatted fragments cross the writers' internal buffer sizes)
+    LONG = [b"w" * k for k in (60, 100, 127, 128, 200, 250, 255, 256, 257, 300, 511, 512, 513, 1000, 1023, 1024, 1025, 2047, 2048, 2049, 4100)]
+    for fmts, arch in ((TEXTUAL, False), (ARCHIVES, True)):
+        case, n = make_case(LONG, 1, fmts, arch)
+        res = pmap.pmap(n, case, init_fn=mmd.init_worker, deadline_s=dl * 0.9)
+        pmap.fold(rep, "length-ladder-%s" % "+".join(f for f, _ in fmts), n, res, "one word of %d lengths (60..4100 bytes, around powers of two) x %d positions x %s x 5 extension sets" % (len(LONG), len(POS), "/".join(f for f, _ in fmts)))
     rep.add_sample(dict(position="link-title", src=(POS[9][1] + b"\"&<" + POS[9][2]).decode("latin-1"), formats=["opml", "fodt", "odt", "epub", "itmz"]))
     rep.add_sample(dict(position="code-block", src=(POS[18][1] + b"<<}" + POS[18][2]).decode("latin-1")))
     return rep.finish()
